@@ -337,5 +337,6 @@ pub fn prop() -> Prop {
         ],
         direct: Some(direct),
         selftest: None,
+        fuzz: None,
     }
 }
